@@ -595,7 +595,9 @@ Definition truth (v : value) : result bool :=
   | VPtr _ | VStruct _ _ | VOpaque _ => Ok true
   | VSlice _ l => Ok (match l with [] => false | _ => true end)
   | VMap _ kv => Ok (match kv with [] => false | _ => true end)
-  | VFloat _ | VAbsStr _ => Err "truth of a value the model does not compute"
+  | VAbsStr _ => Ok true      (* text Go computed (String methods, time.Format, json.Marshal): taken to be non-empty;
+                                 data strings (VStr) are decided exactly.  The checker demands that BOTH branches render *)
+  | VFloat _ => Err "truth of a value the model does not compute"
   end.
 
 (* --- execution ----------------------------------------------------------------------------- *)
@@ -838,7 +840,7 @@ Definition ty_pipe (sch : schema) (facts : list path) (dot : sty) (p : pipe) : o
 (* values of these static types have a truth value the model computes *)
 Definition truth_ok (sch : schema) (t : ty) : bool :=
   match t with
-  | TBool | TInt _ | TPtr _ | TSlice _ | TMap _ => true
+  | TBool | TInt _ | TPtr _ | TSlice _ | TMap _ | TStr => true
   | TNamed n => match tentry_of sch n with Some _ => true | None => false end
   | _ => false
   end.
